@@ -1776,3 +1776,182 @@ pub fn c04_varint_receive(nd: &mut Nondet) {
         }
     }
 }
+
+// ------------------------------------------------------------------------------------------ C03 message-based negotiation
+use litep2p::multistream_select::{webrtc_listener_negotiate, HandshakeResult, ListenerSelectResult, WebRtcDialerState};
+use litep2p::types::protocol::ProtocolName;
+
+const C03_NAMES: [&str; 4] = ["/a", "/b", "/c", "/d"];
+
+/// C03 (message-based variant): a full dialer/listener exchange for every preference list and listener set.
+pub fn c03_webrtc_negotiation(nd: &mut Nondet) {
+    // dialer: main name + 0..=3 fallbacks in preference order
+    let fallbacks = nd.choose("n_fallbacks", 4) as usize;
+    let mut offered: Vec<&'static str> = vec![C03_NAMES[0]];
+    for i in 0..fallbacks { offered.push(C03_NAMES[1 + i]); }
+    // listener: any subset, in any of two orders
+    let mut supported: Vec<ProtocolName> = Vec::new();
+    let mut supported_names: Vec<&'static str> = Vec::new();
+    let reverse = nd.bool("listener_order_reversed");
+    for k in 0..4 {
+        let i = if reverse { 3 - k } else { k };
+        if nd.bool("supports") { supported.push(ProtocolName::from(C03_NAMES[i])); supported_names.push(C03_NAMES[i]); }
+    }
+    let expected: Option<&'static str> = offered.iter().copied().find(|n| supported_names.contains(n));
+
+    let fallback_names: Vec<ProtocolName> = offered[1..].iter().map(|n| ProtocolName::from(*n)).collect();
+    let (mut dialer, mut message) = match WebRtcDialerState::propose(ProtocolName::from(offered[0]), fallback_names) {
+        Ok(x) => x,
+        Err(_) => { check("c03m.proposal-of-valid-names-succeeds", false); return; }
+    };
+    let mut header_received = false;
+    // message grouping: the dialer's first message may arrive as two datagrams (header, then protocol)
+    if nd.bool("split_first_message") {
+        let cut = 1 + message[0] as usize;
+        let first = message[..cut].to_vec();
+        match webrtc_listener_negotiate(supported.clone(), Bytes::from(first), false) {
+            Ok(ListenerSelectResult::PendingProtocol { message: echo }) => {
+                cover("c03m.pending-protocol");
+                // the listener echoes the header; the dialer keeps waiting for the protocol answer
+                match dialer.register_response(echo.to_vec()) {
+                    Ok(HandshakeResult::NotReady) => {}
+                    _ => { check("c03m.dialer-waits-after-the-echoed-header", false); return; }
+                }
+            }
+            _ => { check("c03m.lone-header-waits-for-the-protocol", false); return; }
+        }
+        message = message[cut..].to_vec();
+        header_received = true;
+    }
+    let mut rounds = 0;
+    loop {
+        rounds += 1;
+        if rounds > offered.len() { check("c03m.terminates-within-one-round-per-offered-name", false); return; }
+        let reply = match webrtc_listener_negotiate(supported.clone(), Bytes::from(message.clone()), header_received) {
+            Ok(r) => r,
+            Err(_) => { check("c03m.listener-understands-the-dialer", false); return; }
+        };
+        header_received = true;
+        match reply {
+            ListenerSelectResult::Accepted { protocol, message: answer } => {
+                cover("c03m.accepted");
+                check("c03m.listener-picks-the-most-preferred-common-name", Some(protocol.as_ref() as &str) == expected);
+                match dialer.register_response(answer.to_vec()) {
+                    Ok(HandshakeResult::Succeeded(p)) => check("c03m.both-sides-agree", p == protocol),
+                    _ => check("c03m.dialer-accepts-the-confirmation", false),
+                }
+                return;
+            }
+            ListenerSelectResult::Rejected { message: answer } => {
+                cover("c03m.rejected");
+                match dialer.register_response(answer.to_vec()) {
+                    Ok(HandshakeResult::Rejected) => {}
+                    _ => { check("c03m.dialer-understands-the-rejection", false); return; }
+                }
+                match dialer.propose_next_fallback() {
+                    Ok(Some(next)) => { message = next; }
+                    Ok(None) => {
+                        cover("c03m.exhausted");
+                        check("c03m.failure-only-without-a-common-name", expected.is_none());
+                        return;
+                    }
+                    Err(_) => { check("c03m.fallback-proposal-succeeds", false); return; }
+                }
+            }
+            ListenerSelectResult::PendingProtocol { .. } => { check("c03m.no-pending-after-the-protocol-was-sent", false); return; }
+        }
+    }
+}
+
+// ------------------------------------------------------------------------------------------ C19/C03 multistream length-delimited framing
+use litep2p::multistream_select::length_delimited::LengthDelimited;
+
+/// In-memory carrier for the `futures::io` traits, scripted by `Nondet` like `ScriptedIo`.
+pub struct FutIo {
+    nd: *mut Nondet,
+    incoming: Vec<u8>,
+    pos: usize,
+    pub outgoing: Vec<u8>,
+    budget: u64,
+}
+
+impl FutIo {
+    fn new(nd: &mut Nondet, incoming: Vec<u8>) -> Self { FutIo { nd: nd as *mut Nondet, incoming, pos: 0, outgoing: Vec::new(), budget: param("io_budget", 2) } }
+    fn scripted(&mut self) -> bool { if self.budget > 0 { self.budget -= 1; true } else { false } }
+}
+
+impl futures::io::AsyncRead for FutIo {
+    fn poll_read(mut self: Pin<&mut Self>, _cx: &mut Context<'_>, buf: &mut [u8]) -> Poll<std::io::Result<usize>> {
+        let nd = unsafe { &mut *self.nd };
+        let scripted = self.scripted();
+        if scripted && nd.bool("read_pending") { return Poll::Pending; }
+        let left = self.incoming.len() - self.pos;
+        let avail = if left < buf.len() { left } else { buf.len() };
+        if avail == 0 { return Poll::Ready(Ok(0)); }
+        let n = if scripted && nd.bool("read_one_byte") { 1 } else { avail };
+        let pos = self.pos;
+        buf[..n].copy_from_slice(&self.incoming[pos..pos + n]);
+        self.pos += n;
+        Poll::Ready(Ok(n))
+    }
+}
+
+impl futures::io::AsyncWrite for FutIo {
+    fn poll_write(mut self: Pin<&mut Self>, _cx: &mut Context<'_>, buf: &[u8]) -> Poll<std::io::Result<usize>> {
+        let nd = unsafe { &mut *self.nd };
+        if buf.is_empty() { return Poll::Ready(Ok(0)); }
+        let scripted = self.scripted();
+        if scripted && nd.bool("write_pending") { return Poll::Pending; }
+        let n = if scripted && nd.bool("write_one_byte") { 1 } else { buf.len() };
+        self.outgoing.extend_from_slice(&buf[..n]);
+        Poll::Ready(Ok(n))
+    }
+    fn poll_flush(mut self: Pin<&mut Self>, _cx: &mut Context<'_>) -> Poll<std::io::Result<()>> {
+        let nd = unsafe { &mut *self.nd };
+        if self.scripted() && nd.bool("flush_pending") { Poll::Pending } else { Poll::Ready(Ok(())) }
+    }
+    fn poll_close(self: Pin<&mut Self>, _cx: &mut Context<'_>) -> Poll<std::io::Result<()>> { Poll::Ready(Ok(())) }
+}
+
+/// C19 (+C03 framing): one frame through the multistream length-delimited reader, prefix bytes solver-chosen.
+pub fn c19_length_delimited(nd: &mut Nondet) {
+    let k = 1 + nd.choose("prefix_len", 3) as usize;
+    let mut incoming: Vec<u8> = Vec::new();
+    for _ in 0..k { incoming.push(nd.u8("prefix")); }
+    let p = nd.choose("payload_len", 4) as usize;
+    for j in 0..p { incoming.push(0x40 + j as u8); }
+    let all = incoming.clone();
+    let mut framed = LengthDelimited::new(FutIo::new(nd, incoming));
+    let waker = noop_waker();
+    let mut cx = Context::from_waker(&waker);
+    let mut polls = 0;
+    loop {
+        polls += 1;
+        if polls > 12 { check("c19l.terminates", false); return; }
+        match Pin::new(&mut framed).poll_next(&mut cx) {
+            Poll::Pending => { cover("c19l.pending"); continue; }
+            Poll::Ready(got) => {
+                // reference: a length of at most two varint bytes
+                let b0 = all[0];
+                let header: Option<(usize, usize)> =
+                    if b0 & 0x80 == 0 { Some((b0 as usize, 1)) }
+                    else if all.len() < 2 { None }                                       // stream ends inside the prefix
+                    else if all[1] & 0x80 != 0 { Some((usize::MAX, 2)) }                 // third byte needed: too long
+                    else if all[1] == 0 { Some((usize::MAX, 2)) }                        // not minimal
+                    else { Some((((b0 & 0x7f) as usize) | ((all[1] as usize) << 7), 2)) };
+                match header {
+                    None => { cover("c19l.eof-in-prefix"); check("c19l.eof-in-prefix-is-an-error", matches!(got, Some(Err(_)))); }
+                    Some((usize::MAX, _)) => { cover("c19l.bad-prefix"); check("c19l.bad-prefix-is-an-error", matches!(got, Some(Err(_)))); }
+                    Some((len, used)) => {
+                        if all.len() - used < len { cover("c19l.eof-in-frame"); check("c19l.truncated-frame-is-an-error", matches!(got, Some(Err(_)))); }
+                        else {
+                            cover("c19l.frame");
+                            match got { Some(Ok(frame)) => check("c19l.frame-is-the-announced-bytes", frame[..] == all[used..used + len]), _ => check("c19l.wellformed-frame-is-delivered", false) }
+                        }
+                    }
+                }
+                return;
+            }
+        }
+    }
+}
